@@ -136,7 +136,7 @@ def run(ck):
             _, base = run_session(kind, auto, [], seed=ck.seed)
             n, c0 = base["iters"], base["connected_iter"]
             c0s[kind, auto] = c0
-            step = 1 if ck.tier == "thorough" or kind == "udp" else 2
+            step = 1 if ck.tier == "thorough" or kind != "tcp" else 2
             for k in range(1, n + 1, step):
                 plans.append((kind, auto, [(k, "server_disc")], ()))
                 if k % 2 == 0 or ck.tier == "thorough":
